@@ -333,6 +333,8 @@ pub fn derive_input(di: &syn::DeriveInput) -> Sx {
                             })
                             .collect(),
                     ),
+                    // a where-clause without predicates prints as nothing: its presence is data of its own
+                    tagged("haswhere", vec![boolean(wc.is_some())]),
                 ],
             ),
             list(di.attrs.iter().map(attr).collect()),
